@@ -1,3 +1,12 @@
 (* C19 -- property theorems only.  Proofs live in C19/Proofs*.v. *)
 From Coq Require Import NArith List.
 From DV Require Import Base.Outcome Base.Bytes Base.Names Base.PName C19.Gen C19.Model.
+From DV Require Import C19.ProofsDec.
+Import ListNotations.
+Local Open Scope N_scope.
+
+Theorem C19_agree_refuted_own_segment :
+  exists c, exists n e, c19_old (hdr0 ++ c) 12 = Ok (n, e) /\ new_split c 0 = Err E_PARSE /\
+    PtrIntoOwnSegment (hdr0 ++ c) 12.
+Proof. exists [3;1;122;0;192;13]. eexists. eexists. exact agree_refuted_own_segment. Qed.
+Print Assumptions C19_agree_refuted_own_segment.
